@@ -52,11 +52,12 @@ def cases(tier):
                     out.append({"cls": cls, "setup": setup, "part": "trees", "first": i, "depth": 2 if tier == "quick" else 3,
                                 "state": state})
         out.append({"cls": cls, "part": "face"})
+        out.append({"cls": cls, "part": "faceforms"})
     return out
 
 
 def weight(case):
-    return {"ops": 5, "trees": 20 if case.get("depth", 2) == 2 else 400, "face": 3, "eval": 2}[case["part"]] * U.dim(case["cls"])
+    return {"ops": 5, "trees": 20 if case.get("depth", 2) == 2 else 400, "face": 3, "faceforms": 1, "eval": 2}[case["part"]] * U.dim(case["cls"])
 
 
 def make_bc(mesh, cls, setup, tag):
@@ -442,6 +443,40 @@ def _face_part(ctx, res):
             F.append({"key": "C14:face_unary:%s" % name, "msg": "FaceVariable %s on %s wrong / not independent" % (name, ctx.gid), "detail": {}})
 
 
+def _faceforms_part(ctx, res):
+    """FaceVariable(mesh, scalar) and FaceVariable(mesh, vector): every component has the shape of that axis's
+    faces and holds the given (component of the) value; components are separately stored."""
+    F = res["findings"]
+    m = ctx.mesh
+    shapes = U.face_shapes(m)
+    vec = [1.5, -0.25, 4.0][:ctx.d]
+    forms = [("python float", 2.5, [2.5] * ctx.d), ("python int", 3, [3.0] * ctx.d), ("numpy float", np.float64(0.75), [0.75] * ctx.d),
+             ("negative float", -1.25, [-1.25] * ctx.d), ("zero", 0.0, [0.0] * ctx.d), ("list", list(vec), vec), ("tuple", tuple(vec), vec),
+             ("ndarray", np.array(vec), vec), ("int ndarray", np.array([2, -1, 3][:ctx.d]), [2.0, -1.0, 3.0][:ctx.d])]
+    for label, arg, want in forms:
+        res["evals"] += 1
+        res["nontrivial"] += 1
+        try:
+            f = pf.FaceVariable(m, arg)
+        except Exception as e:  # noqa: BLE001
+            F.append({"key": "C14:faceform_exception:%s" % label, "msg": "FaceVariable(%s, %s) raises %s: %s"
+                      % (ctx.gid, label, type(e).__name__, str(e)[:100]), "detail": {}})
+            continue
+        comps = [np.asarray(getattr(f, c)) for c in U.COMP[:ctx.d]]
+        ok = all(c.shape == s and np.array_equal(c.astype(float), np.full(s, w)) for c, s, w in zip(comps, shapes, want))
+        ok = ok and all(np.asarray(getattr(f, c)).size == 0 for c in U.COMP[ctx.d:])
+        for i in range(ctx.d):
+            for j in range(i + 1, ctx.d):
+                ok = ok and not np.shares_memory(comps[i], comps[j])
+        if ok:      # a later in-place edit of one component must not leak into another variable built the same way
+            g2 = pf.FaceVariable(m, arg)
+            comps[0][...] = 99.0
+            ok = not np.any(np.asarray(getattr(g2, U.COMP[0])) == 99.0)
+        if not ok:
+            F.append({"key": "C14:faceform:%s" % label.split()[0], "msg": "FaceVariable(%s, %s = %r): components are not full face-shaped arrays of the given value(s)"
+                      % (ctx.gid, label, arg), "detail": {}})
+
+
 def _eval_part(ctx, res):
     F = res["findings"]
     vs = [ctx.var(i) for i in range(8)]
@@ -502,6 +537,8 @@ def run_case(case):
         _trees_part(ctx, res, case["first"], case["depth"])
     elif part == "face":
         _face_part(ctx, res)
+    elif part == "faceforms":
+        _faceforms_part(ctx, res)
     else:
         _eval_part(ctx, res)
     res["outcomes"] = {"%s:%s" % (part, "ok" if not res["findings"] else "viol"): 1}
